@@ -475,6 +475,7 @@ def explore_c14(rng, tier, res, deep=False):
         compiled = []  # (env index, text, object)
         ops_wire = []
         outs_real = []
+        details = {}  # step index -> (env description at that moment, query text, document snapshot) for apply / envfind steps
         docs = [doc_with_all_kinds(rng, 2) for _ in range(3)]
         eph = [[{"v": 1}, {"v": 2}], [{"v": 1}, {"v": 2}, {"v": 1}], [0, [1], {"a": 2}], [[], 0], [{"a": 1, "b": [2]}], {"a": [1, 2], "b": 1}]
         hist = []
@@ -574,6 +575,7 @@ def explore_c14(rng, tier, res, deep=False):
                     res.violations.append({"property": "C14", "query": q, "document": snap, "observed": doc,
                                            "expected": "document unchanged", "what": "applying a query modified the document"})
                 outs_real.append("nodes " + r if not r.startswith("err ") else "raised " + r[4:])
+                details[len(ops_wire)] = (dict(descs[ei]), q, snap)
                 ops_wire.append(f"(apply {qi} {wire.enc_json(doc)})")
                 hist.append(("apply", qi))
                 # history irrelevance on the real code: a fresh environment with the same registry, fresh compile
@@ -592,6 +594,7 @@ def explore_c14(rng, tier, res, deep=False):
                 else:
                     r = outcome(lambda: enc_list(envs[ei].find(q, doc)))
                 outs_real.append("nodes " + r if not r.startswith("err ") else "raised " + r[4:])
+                details[len(ops_wire)] = (dict(descs[ei]), q, copy.deepcopy(doc))
                 ops_wire.append(f"(envfind {ei} {wire.enc_str(q)} {wire.enc_json(doc)})")
                 hist.append(("envfind", ei, q))
             res.evaluations += 1
@@ -682,8 +685,9 @@ def explore_c14(rng, tier, res, deep=False):
                     edit_in_place(rng, live)
         res.nontrivial.add(tuple(str(h) for h in hist))
         res.sample({"history": [str(h)[:80] for h in hist[:8]]})
-        pending.append(("hist\t(ops " + " ".join(ops_wire) + ")", outs_real, hist))
+        pending.append(("hist\t(ops " + " ".join(ops_wire) + ")", outs_real, hist, details))
     shared_substructure(rng, tier, res)
+    conflated_twins_history(res)
     subclass_alongside(rng, tier, res)
     typed_call_twins(rng, tier, res)
     reregister_between_applications(rng, tier, res)
@@ -692,7 +696,7 @@ def explore_c14(rng, tier, res, deep=False):
     except model.ModelError as err:
         res.infra.append(str(err)[:200])
         return
-    for (line, outs_real, hist), rep in zip(pending, reps):
+    for (line, outs_real, hist, details), rep in zip(pending, reps):
         want = "outs\t" + "\t".join(outs_real)
         if rep != want:
             # locate the first differing step
@@ -700,6 +704,64 @@ def explore_c14(rng, tier, res, deep=False):
             idx = next((i for i in range(min(len(a), len(b))) if a[i] != b[i]), min(len(a), len(b)))
             res.mismatches.append({"op": "hist", "step": idx, "history": [str(h)[:120] for h in hist[: idx + 1]][-6:],
                                    "model": a[idx][:200] if idx < len(a) else None, "real": b[idx][:200] if idx < len(b) else None})
+            # the step itself is a concrete (environment, query, value): judge what the real code returned by the RFC oracle
+            # (a process-wide cache makes a fresh environment agree with the wrong answer; the oracle does not share it)
+            if idx in details and idx < len(b) and b[idx].startswith("nodes"):
+                desc, q, snap = details[idx]
+                try:
+                    orep = model.run_batch([f"rfc.query\t{real.enc_env(desc)}\t{wire.enc_str(q)}\t{wire.enc_json(snap)}"])[0]
+                except Exception:  # noqa: BLE001
+                    orep = ""
+                if orep.startswith("valid\t") or orep == "valid":
+                    want_nodes = orep.split("\t", 1)[1] if "\t" in orep else ""
+                    got_nodes = b[idx][len("nodes "):] if len(b[idx]) > 5 else ""
+                    if got_nodes.strip() != want_nodes.strip():
+                        res.violations.append({"property": "C14", "query": q, "document": snap, "env": desc, "observed": got_nodes[:300], "expected": want_nodes[:300],
+                                               "history": [str(h)[:120] for h in hist[: idx + 1]][-10:],
+                                               "what": "after this history the real code returns, for this query and value, a nodelist that is not the RFC 9535 nodelist (the model of a history-free evaluation and the oracle agree with each other)"})
+
+
+def conflated_twins_history(res):
+    """Values that Python's == and hash() cannot tell apart but that are different JSON values (true / 1 / 1.0, false / 0 /
+    0.0 / -0.0), met by ONE process in both orders, with and without many other distinct numbers compared in between
+    (enough to turn over any bounded memo): compiled queries applied to the float version, the boolean version, the
+    integer version, in every order; every nodelist judged by the RFC oracle."""
+    import itertools
+
+    env = real.make_env(real.DEFAULT_ENVDESC)
+    eenv = real.enc_env(real.DEFAULT_ENVDESC)
+    other = real.make_env(real.DEFAULT_ENVDESC)
+    filler = [i + 0.5 for i in range(260)] + [float(i) for i in range(2, 200)]
+    qs = ["$[?@.a < 2]", "$[?@.a == 1]", "$[?@.a >= 0]", "$[?@.a == 1.0]", "$[?@.a != 0]", "$[?@.a <= @.b]", "$[?@.a == @.b]", "$[?1 > @.a]", "$[?@.a == true]", "$[?@.a == false]"]
+    versions = {"float": [{"a": 1.0, "b": 1.0}, {"a": 0.0, "b": -0.0}, {"a": "x", "b": None}], "bool": [{"a": True, "b": True}, {"a": False, "b": False}, {"a": "x", "b": None}],
+                "int": [{"a": 1, "b": 1}, {"a": 0, "b": 0}, {"a": "x", "b": None}], "mixed": [{"a": True, "b": 1.0}, {"a": 0.0, "b": False}, {"a": 1, "b": True}]}
+    lines, got = [], []
+    for order in itertools.permutations(["float", "bool", "int", "mixed"], 3):
+        for churn in (False, True):
+            for q in qs[:: (1 if churn else 2)]:
+                c = env.compile(q)
+                for k in order:
+                    doc = json.loads(json.dumps(versions[k]))
+                    r = outcome(lambda: enc_list(c.find(doc)))
+                    got.append((q, doc, r, order, churn))
+                    lines.append(f"rfc.query\t{eenv}\t{wire.enc_str(q)}\t{wire.enc_json(doc)}")
+                    if churn:
+                        try:
+                            other.find("$[?@ > -1 && @ == @]", filler)
+                        except Exception:  # noqa: BLE001
+                            pass
+    reps = model.run_batch_parallel(lines)
+    for (q, doc, r, order, churn), rep in zip(got, reps):
+        res.evaluations += 1
+        if not rep.startswith("valid"):
+            continue
+        want = rep.split("\t", 1)[1] if "\t" in rep else ""
+        if r.strip() != want.strip():
+            res.violations.append({"property": "C14", "query": q, "document": doc, "observed": r[:300], "expected": want[:300],
+                                   "history": f"one compiled query applied to the versions {list(order)} of the data in this order" + (", with ~450 other distinct numbers compared on another environment in between" if churn else ""),
+                                   "what": "a compiled query's nodelist on this value depends on which Python-equal but JSON-different values (true / 1 / 1.0, false / 0 / 0.0) the process compared before"})
+            return
+    res.count("conflated-twins-history", len(lines))
 
 
 def shared_substructure(rng, tier, res):
